@@ -283,6 +283,26 @@ theorem C18_acquire_test_and_set (sh : LockFile.Shape) (ha : sh.atomicOpen = tru
   · intro hf
     simp [LockFile.step, ha, hf, LockFile.refuse, hg]
 
+/-- **The lock-file `open_write` refines the abstract `acquire`.** Whenever the lock-file state and
+the abstract lock state agree (file exists ⇔ lock held, same number of holders / guard objects), an
+`open_write` by thread `t` and the abstract `acquire t` give corresponding outcomes (`acquired` ⇔
+`done`, `refused` ⇔ `lockBusy`) and agreeing states again — so every theorem about `Model/Lock.lean`
+speaks about the lock-file implementation. -/
+theorem C18_acquire_refines (sh : LockFile.Shape) (ha : sh.atomicOpen = true) (hg : sh.guardLate = true)
+    (fs : LockFile.St) (ls : Lock.St) (t : Nat)
+    (hfile : fs.file = ls.held) (hcount : LockFile.holders fs = ls.guards.length)
+    (hfresh : Owner.creating t ∉ ls.guards) :
+    ((LockFile.step sh fs (.openWrite t)).2 = .acquired ↔ (Lock.step ls (.acquire t)).2 = .done) ∧
+    ((LockFile.step sh fs (.openWrite t)).2 = .refused ↔ (Lock.step ls (.acquire t)).2 = .lockBusy) ∧
+    (LockFile.step sh fs (.openWrite t)).1.file = (Lock.step ls (.acquire t)).1.held ∧
+    LockFile.holders (LockFile.step sh fs (.openWrite t)).1 = (Lock.step ls (.acquire t)).1.guards.length := by
+  cases hh : ls.held <;>
+    simp [LockFile.step, Lock.step, ha, hg, hfile, hh, hfresh, LockFile.refuse, LockFile.succeed,
+      LockFile.holders] at hcount ⊢ <;> omega
+
+example : (LockFile.step ⟨true, true⟩ LockFile.init (.openWrite 3)).2 = .acquired
+    ∧ (Lock.step Lock.init (.acquire 3)).2 = .done := by decide
+
 /-- the code as it is now has both shapes (extracted), so its lock-file protocol is the atomic
 test-and-set that `Model/Lock.lean` takes `acquire` to be -/
 theorem C18_acquire_test_and_set_of_extracted_shape (h : List LockFile.Ev) :
